@@ -32,6 +32,13 @@ FAMILIES = GRIDS + NETS + ("vor", "cs", "xcs")
 
 FACE_COLORS = ["red", "green", "blue", "#ff8800", "purple"]
 EDGE_COLORS = ["white", "gray", "yellow"]
+# colours given as RGB / RGBA tuples (components in percent): numpy cannot put them into one array with
+# colour names, with tuples of another length or with None (V14)
+FACE_TUPLES = ["rgb_0_100_0", "rgb_0_100_100", "rgba_100_0_100_100"]
+EDGE_TUPLES = ["rgb_0_0_0", "rgba_50_0_0_100"]
+LAYER_COLORS = ["red", "blue", "green"]
+LAYER_CMAPS = ["viridis", "plasma"]
+LAYER_NAMES = ["v", "heat", "b"]
 MARKERS = ["o", "s", "^", "v", "D"]
 SIZES = [5, 10, 20, 40]
 ZORDERS = [0, 1, 2, 3]
@@ -52,6 +59,7 @@ def L():
 
     import altair  # noqa
     import matplotlib
+    import matplotlib.pyplot as plt
     import networkx as nx
     import numpy as np
     import solara
@@ -86,19 +94,39 @@ def L():
 # tokens <-> python values
 
 
+def color_py(tok):
+    if tok.startswith(("rgb_", "rgba_")):
+        return tuple(int(c) / 100 for c in tok.split("_")[1:])
+    return tok
+
+
+def color_tok(v):
+    import numpy as np
+
+    if isinstance(v, (tuple, list, np.ndarray)):
+        return ("rgb_" if len(v) == 3 else "rgba_") + "_".join(str(int(round(float(c) * 100))) for c in v)
+    return str(v)
+
+
 def to_py(key, tok):
     if key in ("size", "zorder", "linewidths"):
         return int(tok)
     if key == "alpha":
         return int(tok) / 100
+    if key in ("color", "edgecolors"):
+        return color_py(tok)
     return tok
 
 
 def to_tok(key, v):
     import numpy as np
 
-    if isinstance(v, np.generic):
+    if isinstance(v, np.generic) or (isinstance(v, np.ndarray) and v.ndim == 0):
         v = v.item()
+    if key in ("color", "edgecolors") or isinstance(v, (tuple, list, np.ndarray)):
+        return color_tok(v)
+    if isinstance(v, float) and not math.isfinite(v):
+        return str(v)  # inf / nan: never a value the model produces
     if key == "alpha":
         return str(int(round(v * 100)))
     if isinstance(v, float) and v == int(v):
@@ -114,7 +142,7 @@ def or_dash(s):
     return s if s else "-"
 
 
-EXC = {IndexError: "err Index", AttributeError: "err Attribute", NotImplementedError: "err NotImplemented"}
+EXC = {IndexError: "err Index", AttributeError: "err Attribute", NotImplementedError: "err NotImplemented", ValueError: "err Value"}
 
 
 def exc_tok(e):
@@ -175,7 +203,7 @@ class SpaceImpl:
         self.where = {}  # vid -> (x, y): the harness' own record of where it put the agent
         self.heap = []  # the dict objects the portrayal hands out
         self.pmap = {}  # vid -> heap index
-        self.layer = None
+        self.layers = {}  # name -> PropertyLayer
         self.trace = []
 
     # the portrayal callable given to the drawing code ------------------------------------------
@@ -277,7 +305,7 @@ class SpaceImpl:
         kw = {}
         if defaults:
             c, s, mk, z = defaults
-            kw = {"color": c, "size": int(s), "marker": mk, "zorder": int(z)}
+            kw = {"color": color_py(c), "size": int(s), "marker": mk, "zorder": int(z)}
         with warnings.catch_warnings(record=True) as wl:
             warnings.simplefilter("always")
             try:
@@ -288,7 +316,7 @@ class SpaceImpl:
         n = len(data["loc"])
         entries = []
         for i in range(n):
-            entries.append((self.fmt_loc(data["loc"][i]), to_tok("size", data["s"][i]), str(data["c"][i]),
+            entries.append((self.fmt_loc(data["loc"][i]), to_tok("size", data["s"][i]), color_tok(data["c"][i]),
                             str(data["marker"][i]), to_tok("zorder", data["zorder"][i])))
         # one slot per agent (None: the agent's portrayal does not specify the key), or empty (fix V7)
         opt = {k: ["None" if v is None else to_tok(k, v) for v in data[k]] for k in ("alpha", "edgecolors", "linewidths")}
@@ -315,7 +343,8 @@ class SpaceImpl:
             return (180 / max(max(xs) - min(xs), max(ys) - min(ys))) ** 2
         pos = self.net_layout()
         x, y = list(zip(*pos.values()))
-        return (180 / max(max(x) - min(x), max(y) - min(y))) ** 2
+        # fix V12: a layout without extent (one node) is sized like a single cell
+        return (180 / (max(max(x) - min(x), max(y) - min(y)) or 1)) ** 2
 
     def net_layout(self):
         if self.layout is None:
@@ -339,8 +368,8 @@ class SpaceImpl:
         """groups [(marker, zorder, [marker tuples])] read back from the PathCollections on the Axes"""
         m = L()
         np = m["np"]
-        face = {tuple(m["to_rgba"](c)[:3]): c for c in FACE_COLORS + ["tab:blue"]}
-        edge = {tuple(m["to_rgba"](c)[:3]): c for c in EDGE_COLORS}
+        face = {tuple(m["to_rgba"](color_py(c))[:3]): c for c in FACE_COLORS + FACE_TUPLES + ["tab:blue"]}
+        edge = {tuple(m["to_rgba"](color_py(c))[:3]): c for c in EDGE_COLORS + EDGE_TUPLES}
         sd = self.s_default()
         groups = []
         for coll in ax.collections:
@@ -366,9 +395,12 @@ class SpaceImpl:
         groups.sort(key=lambda g: (g[0], g[1]))
         return groups
 
-    def draw(self, component=False):
+    def draw(self, component=False, default=False, kw=None):
         m = L()
         snap = self.snapshot()
+        if default:
+            snap = [(v, loc, {}) for v, loc, _ in snap]  # the component's own portrayal: {}
+        kwargs = {k: to_py(k, v) for k, v in (kw or {}).items()}
         ax = m["Figure"]().add_subplot()
         with warnings.catch_warnings():
             warnings.simplefilter("ignore")
@@ -376,28 +408,60 @@ class SpaceImpl:
                 if component:
                     # the solara component builds its own Figure; post_process receives the Axes
                     got = []
-                    comp = m["make_mpl_space_component"](self.portrayal, post_process=got.append)
+                    comp = m["make_mpl_space_component"](None if default else self.portrayal, post_process=got.append)
                     m["solara"].render(comp(self.model), handle_error=False)
                     ax = got[0]
                 else:
-                    m["draw_space"](self.space, self.portrayal, ax=ax)
+                    m["draw_space"](self.space, self.portrayal, ax=ax, **kwargs)
             except Exception as e:
-                self.trace.append(("draw", snap, None, exc_tok(e) + ": " + str(e)[:80], self.heap_before, self.heap_now()))
-                return exc_tok(e)
+                tok = exc_tok(e)
+                if kw and isinstance(e, ValueError) and "is specified in agent portrayal and via plotting kwargs" in str(e):
+                    tok = "err Value conflict " + str(e).split()[0]
+                self.trace.append(("draw", snap, None, tok + ": " + str(e)[:80], kw, self.heap_before, self.heap_now()))
+                return tok
             groups = self.read_axes(ax)
-        self.trace.append(("draw", snap, groups, None, self.heap_before, self.heap_now()))
+        self.trace.append(("draw", snap, groups, None, kw, self.heap_before, self.heap_now()))
         return "ok" + "".join(
             f" | {mk} {z} n={len(mem)}" + "".join(" " + ",".join(t) for t in mem) for mk, z, mem in groups)
 
-    def altair(self, component=False):
+    def sdefault(self):
+        """the marker size of agents portrayed by {}: all agents drawn with an empty portrayal"""
+        m = L()
+        ax = m["Figure"]().add_subplot()
+        with warnings.catch_warnings():
+            warnings.simplefilter("ignore")
+            try:
+                m["draw_space"](self.space, lambda a: {}, ax=ax)
+            except Exception as e:
+                self.trace.append(("sdefault", len(self.where), exc_tok(e)))
+                return exc_tok(e)
+        sizes = sorted({float(s) for c in ax.collections if isinstance(c, m["PathCollection"]) for s in c.get_sizes()})
+        if not sizes:
+            tok = "none"
+        elif len(sizes) > 1:
+            tok = "several"
+        elif self.fam in NETS and len(self.labels) > 1:
+            sd = self.s_default()
+            tok = "layout" if abs(sizes[0] - sd) <= 1e-9 * max(1.0, sd) else self.frac_tok(sizes[0], 10000)
+        else:
+            tok = self.frac_tok(sizes[0], 10000)
+        self.trace.append(("sdefault", len(self.where), tok))
+        return "ok " + tok
+
+    def altair(self, component=False, default=False):
         m = L()
         snap = self.snapshot()
+        if default:
+            # the component's own portrayal: {"id": unique_id}; the harness knows the agents by their vid
+            uid = {ag.unique_id: vid for vid, ag in self.agents.items()}
+            snap = [(v, loc, {"id": v}) for v, loc, _ in snap]
         with warnings.catch_warnings():
             warnings.simplefilter("ignore")
             try:
                 if component:
                     got = []
-                    comp = m["make_altair_space"](self.portrayal, None, post_process=lambda ch: (got.append(ch), ch)[1])
+                    comp = m["make_altair_space"](None if default else self.portrayal, None,
+                                                  post_process=lambda ch: (got.append(ch), ch)[1])
                     m["solara"].render(comp(self.model), handle_error=False)
                     chart = got[0]
                 else:
@@ -407,9 +471,20 @@ class SpaceImpl:
                 self.trace.append(("altair", snap, None, exc_tok(e) + ": " + str(e)[:80], self.heap_before, self.heap_now()))
                 return exc_tok(e)
         rows = d["data"]["values"]
-        enc = [k for k in ("color", "size") if k in d.get("encoding", {})]
-        self.trace.append(("altair", snap, rows, None, self.heap_before, self.heap_now()))
-        return f"ok enc={or_dash('+'.join(enc))}" + "".join(" | " + or_dash(fmt_dict(r)) for r in rows)
+        if default:
+            rows = [{**r, "id": uid.get(r.get("id"), "?")} for r in rows]
+        encoding = d.get("encoding", {})
+        enc = [k for k in ("color", "size") if k in encoding]
+        xy = {encoding.get(k, {}).get("type", "?") for k in ("x", "y")}
+        xy = xy.pop() if len(xy) == 1 else "?"
+        tip = [t.get("field", "?") for t in encoding.get("tooltip", [])]
+        mark = d.get("mark", {})
+        mtok = self.frac_tok(mark["size"], 100) if isinstance(mark, dict) and "size" in mark else "-"
+        chart_facts = {"enc": enc, "xy": xy, "tip": tip, "mark": mtok, "type": mark.get("type") if isinstance(mark, dict) else mark,
+                       "filled": mark.get("filled") if isinstance(mark, dict) else None, "w": d.get("width"), "h": d.get("height")}
+        self.trace.append(("altair", snap, rows, None, chart_facts, self.heap_before, self.heap_now()))
+        return (f"ok enc={or_dash('+'.join(enc))} xy={xy} tip={or_dash('+'.join(tip))} mark={mtok}"
+                + "".join(" | " + or_dash(fmt_dict(r)) for r in rows))
 
     def heap_now(self):
         return [dict(d) for d in self.heap]
@@ -418,84 +493,196 @@ class SpaceImpl:
         return "ok" + "".join(f" {i}:{{{fmt_dict(d)}}}" for i, d in enumerate(self.heap))
 
     # property layers ---------------------------------------------------------------------------
-    def set_layer(self, vals):
+    def set_layer(self, name, vals):
         m = L()
         np = m["np"]
         if self.fam not in GRIDS or len(vals) != self.w * self.h:
             raise ValueError("layer")
         data = np.asarray(vals, dtype=int).reshape(self.w, self.h)
-        if self.layer is None:
+        if name not in self.layers:
             # the dtype is invisible to the protocol (values are small integers either way): float layers — the
             # library's default dtype — are used for every second value vector so that in-place arithmetic on
             # the layer's own array during drawing would show
             dt = float if sum(vals) % 2 == 0 else int
             if self.fam in GRID_LEGACY:
-                self.layer = m["ms"].PropertyLayer("v", self.w, self.h, dt(0), dtype=dt)
-                self.space.add_property_layer(self.layer)
+                lay = m["ms"].PropertyLayer(name, self.w, self.h, dt(0), dtype=dt)
             else:
-                self.layer = m["NewLayer"]("v", (self.w, self.h), default_value=dt(0), dtype=dt)
-                self.space.add_property_layer(self.layer)
-        self.layer.data[:] = data
+                lay = m["NewLayer"](name, (self.w, self.h), default_value=dt(0), dtype=dt)
+            self.space.add_property_layer(lay)
+            self.layers[name] = lay
+        self.layers[name].data[:] = data
         return "ok"
 
-    def draw_layer(self, mode):
+    @staticmethod
+    def frac_tok(a, maxden=4000):
+        """a float read back from the Axes as an exact fraction in lowest terms ('?' if it is none)"""
+        from fractions import Fraction
+
+        a = float(a)
+        if not math.isfinite(a):
+            return "?"
+        f = Fraction(a).limit_denominator(maxden)
+        if abs(float(f) - a) > 1e-9:
+            return "?"
+        return str(f.numerator) if f.denominator == 1 else f"{f.numerator}/{f.denominator}"
+
+    @staticmethod
+    def cbar_tok(lo, hi):
+        """the range of a colour bar; matplotlib widens a range without extent (nonsingular, expander 0.1)"""
+        lo, hi = float(lo), float(hi)
+        if lo == int(lo) and hi == int(hi):
+            return f"{int(lo)}..{int(hi)}"
+        mid = (lo + hi) / 2
+        if abs(mid - round(mid)) < 1e-9:
+            half = 0.1 * abs(round(mid)) if round(mid) else 0.1
+            if abs((hi - lo) / 2 - half) < 1e-9:
+                return f"{round(mid)}..{round(mid)}"
+        return "?..?"
+
+    @staticmethod
+    def layer_request(specs):
+        request = {}
+        for name, mode, arg, alpha, vmin, vmax, cbar in specs:
+            port = {}
+            if mode == "color":
+                port["color"] = arg
+            elif mode == "cmap":
+                port["colormap"] = arg
+            if alpha is not None:
+                port["alpha"] = alpha / 100
+            if vmin is not None:
+                port["vmin"] = vmin
+            if vmax is not None:
+                port["vmax"] = vmax
+            if cbar is not None:
+                port["colorbar"] = cbar
+            request[name] = port
+        return request
+
+    def draw_layers(self, specs, with_agents=False):
+        """specs: [(name, mode, colour-or-cmap, alpha%, vmin, vmax, cbar)] with None for keys left out.
+        with_agents: through draw_space(space, portrayal, propertylayer_portrayal=request), agents first"""
         m = L()
-        np = m["np"]
-        data = self.layer.data.copy()
-        auto = mode.endswith("auto")
-        vmin, vmax = (int(data.min()), int(data.max())) if auto else (0, 9)
-        port = {"colorbar": False}
-        if not auto:
-            port.update(vmin=0, vmax=9)
-        if mode.startswith("cmap"):
-            port["colormap"] = "viridis"
-        else:
-            port["color"] = "red"
-        ax = m["Figure"]().add_subplot()
+        np, plt = m["np"], m["plt"]
+        before = {n: lay.data.copy() for n, lay in self.layers.items()}
+        datas = {n: d.astype(int).tolist() for n, d in before.items()}
+        request = self.layer_request(specs)
+        snap = self.snapshot() if with_agents else None
+        fig = m["Figure"]()
+        ax = fig.add_subplot()
         with warnings.catch_warnings():
             warnings.simplefilter("ignore")
             try:
-                m["draw_property_layers"](self.space, {"v": port}, ax)
+                if with_agents:
+                    m["draw_space"](self.space, self.portrayal, propertylayer_portrayal=request, ax=ax)
+                else:
+                    m["draw_property_layers"](self.space, request, ax)
             except Exception as e:
-                self.trace.append(("layer", data.tolist(), mode, None, exc_tok(e)))
+                # with agents: the agents are drawn first; a request the layers refuse still raises
+                self.trace.append(("layers", self.fam, datas, specs, None, exc_tok(e), with_agents))
                 return exc_tok(e)
-        if not np.array_equal(self.layer.data, data):
-            self.trace.append(("layer-mutated", data.tolist(), np.asarray(self.layer.data).tolist()))
-        data = data.astype(int)
-        cmap = m["matplotlib"].colormaps["viridis"]
-        norm = m["Normalize"](vmin, vmax)
-        cands = list(range(vmin, vmax + 1))
+            finally:
+                plt.close("all")  # plt.colorbar creates a pyplot figure as a side effect
+            groups = self.read_axes(ax) if with_agents else None
+        for n, lay in self.layers.items():
+            if not np.array_equal(lay.data, before[n]):
+                self.trace.append(("layer-mutated", before[n].tolist(), np.asarray(lay.data).tolist()))
+        out, res = self.read_layers(fig, ax, specs, datas)
+        self.trace.append(("layers", self.fam, datas, specs, res, None, with_agents))
+        if with_agents:
+            self.trace.append(("draw", snap, groups, None, None, self.heap_before, self.heap_now()))
+            return "ok" + "".join(
+                f" | {mk} {z} n={len(mem)}" + "".join(" " + ",".join(t) for t in mem) for mk, z, mem in groups) + " ## " + out
+        return out
 
-        def value_of(rgba):
-            if mode.startswith("cmap"):
-                best = min(cands, key=lambda v: float(np.abs(np.asarray(cmap(norm(v))) - rgba).sum()))
-                return best if float(np.abs(np.asarray(cmap(norm(best))) - rgba).sum()) < 1e-6 else "?"
-            v = rgba[3] * (vmax - vmin) + vmin
-            return int(round(v)) if abs(v - round(v)) < 1e-6 else "?"
-
-        if ax.images:
-            arr = np.ma.filled(ax.images[-1].get_array(), -1)
-            if arr.ndim == 2:
-                img = [[int(v) for v in row] for row in arr]
+    def read_layers(self, fig, ax, specs, datas):
+        m = L()
+        np = m["np"]
+        colors = {tuple(m["to_rgba"](c)[:3]): c for c in LAYER_COLORS}
+        bars = {}
+        for cax in fig.axes[1:]:
+            cb = getattr(cax, "_colorbar", None)
+            if cb is not None:
+                bars.setdefault(cax.get_ylabel(), []).append(self.cbar_tok(cb.norm.vmin, cb.norm.vmax))
+        # the pictures, in the order they were put on the Axes; each is matched to the request by its position among
+        # the drawn layers (the names the space has a layer for)
+        drawn_names = [name for name, *_ in specs if name in self.layers]
+        pics = list(ax.images) if self.fam not in HEXES else [c for c in ax.collections if isinstance(c, m["PolyCollection"])]
+        out, res = "ok", []
+        for i, pic in enumerate(pics):
+            name = drawn_names[i] if i < len(drawn_names) else "?"
+            spec = next((sp for sp in specs if sp[0] == name), None)
+            bar = bars.get(name, [])
+            btok = "-" if not bar else bar[0] if len(bar) == 1 else "twice"
+            if self.fam not in HEXES:
+                arr = np.ma.filled(pic.get_array().astype(float), np.nan)
+                if arr.ndim == 3:
+                    ctok = colors.get(tuple(arr[0, 0, :3]), "?")
+                    if not (arr[..., :3] == arr[0, 0, :3]).all():
+                        ctok = "?"
+                    rows = [[self.frac_tok(px[3]) for px in row] for row in arr]
+                    head = f"{name} img color={ctok} cbar={btok}"
+                    res.append((name, "img", ctok, None, None, None, btok, rows))
+                else:
+                    rows = [[to_tok("", v) for v in row] for row in arr]
+                    al = pic.get_alpha()
+                    atok = "100" if al is None else to_tok("alpha", al)
+                    head = (f"{name} imgmap cmap={pic.get_cmap().name} alpha={atok} vmin={to_tok('', pic.norm.vmin)} "
+                            f"vmax={to_tok('', pic.norm.vmax)} cbar={btok}")
+                    res.append((name, "imgmap", pic.get_cmap().name, atok, to_tok("", pic.norm.vmin), to_tok("", pic.norm.vmax), btok, rows))
+                out += " | " + head + "".join(f" r{r}=" + ",".join(row) for r, row in enumerate(rows))
             else:
-                img = [[value_of(px) for px in row] for row in arr]
-            self.trace.append(("layer", data.tolist(), mode, ("img", img), None))
-            return "ok img" + "".join(f" r{r}=" + ",".join(map(str, row)) for r, row in enumerate(img))
-        polys = [c for c in ax.collections if isinstance(c, m["PolyCollection"])]
-        if polys:
-            pc = polys[-1]
-            cells = []
-            for path, fc in zip(pc.get_paths(), pc.get_facecolors()):
-                cx, cy = path.vertices[:6].mean(axis=0)
-                row = round(cy / 1.5)
-                colf = (cx - (row % 2 == 0) * SQ3 / 2) / SQ3
-                col = round(colf)
-                ok = abs(cy / 1.5 - row) < 1e-6 and abs(colf - col) < 1e-6
-                cells.append(((col, row) if ok else ("?", "?"), value_of(np.asarray(fc))))
-            self.trace.append(("layer", data.tolist(), mode, ("hex", cells), None))
-            return "ok hex" + "".join(f" {c},{r}={v}" for (c, r), v in cells)
-        self.trace.append(("layer", data.tolist(), mode, ("none", None), None))
-        return "ok none"
+                fcs = pic.get_facecolors()
+                cells, where = [], []
+                for path in pic.get_paths():
+                    cx, cy = path.vertices[:6].mean(axis=0)
+                    row = round(cy / 1.5)
+                    colf = (cx - (row % 2 == 0) * SQ3 / 2) / SQ3
+                    col = round(colf)
+                    okc = abs(cy / 1.5 - row) < 1e-6 and abs(colf - col) < 1e-6
+                    where.append((col, row) if okc else ("?", "?"))
+                if spec is not None and spec[1] == "cmap":
+                    cmap = m["matplotlib"].colormaps[spec[2]] if spec[2] in m["matplotlib"].colormaps else None
+                    # the level behind a colour: searched among the multiples of 1 / (vmax - vmin) of this request
+                    lo = min(min(r) for r in datas[name]) if spec[4] is None else spec[4]
+                    hi = max(max(r) for r in datas[name]) if spec[5] is None else spec[5]
+                    span = max(hi - lo, 1)
+                    from fractions import Fraction
+
+                    cands = [Fraction(k, span) for k in range(span + 1)]
+                    alphas = {round(float(fc[3]), 9) for fc in fcs}
+                    atok = to_tok("alpha", alphas.pop()) if len(alphas) == 1 else "?"
+                    for fc in fcs:
+                        hit = [c for c in cands if cmap is not None and np.abs(np.asarray(cmap(float(c)))[:3] - fc[:3]).sum() < 1e-6]
+                        cells.append(self.frac_tok(float(hit[0])) if len(hit) == 1 else "?")
+                    head = f"{name} hexmap cmap={spec[2]} alpha={atok} cbar={btok}"
+                    res.append((name, "hexmap", spec[2], atok, None, None, btok, list(zip(where, cells))))
+                else:
+                    ctok = colors.get(tuple(fcs[0][:3]), "?") if len(fcs) else "?"
+                    if len(fcs) and not (fcs[:, :3] == fcs[0, :3]).all():
+                        ctok = "?"
+                    cells = [self.frac_tok(fc[3]) for fc in fcs]
+                    head = f"{name} hex color={ctok} cbar={btok}"
+                    res.append((name, "hex", ctok, None, None, None, btok, list(zip(where, cells))))
+                out += " | " + head + "".join(f" {c},{r}={v}" for (c, r), v in zip(where, cells))
+        stray = sorted(set(bars) - set(drawn_names))
+        if stray:
+            out += " | stray-colorbars=" + "+".join(stray)
+        return out, res
+
+    LEGACY_SPEC = {
+        "cmap": ("v", "cmap", "viridis", None, 0, 9, False),
+        "color": ("v", "color", "red", None, 0, 9, False),
+        "cmapauto": ("v", "cmap", "viridis", None, None, None, False),
+        "colorauto": ("v", "color", "red", None, None, None, False),
+    }
+
+    @staticmethod
+    def parse_spec(tok):
+        name, mode, alpha, vmin, vmax, cbar = tok.split(":")
+        kind, _, arg = mode.partition("=")
+        opt = lambda t, f: None if t == "-" else f(t)  # noqa: E731
+        return (name, kind, arg or None, opt(alpha, int), opt(vmin, int), opt(vmax, int), opt(cbar, lambda t: t == "y"))
 
     # dispatcher --------------------------------------------------------------------------------
     def line(self, w):
@@ -540,16 +727,30 @@ class SpaceImpl:
             return self.draw()
         if k == "drawc":
             return self.draw(component=True)
+        if k == "sdefault":
+            return self.sdefault()
+        if k == "drawk":
+            return self.draw(kw=dict(t.split("=") for t in w[1:]))
         if k == "altair":
             return self.altair()
         if k == "altairc":
             return self.altair(component=True)
+        if k == "altairc0":
+            return self.altair(component=True, default=True)
+        if k == "drawc0":
+            return self.draw(component=True, default=True)
         if k == "heap":
             return self.heap_line()
         if k == "layer":
-            return self.set_layer([int(v) for v in w[1:]])
+            return self.set_layer("v", [int(v) for v in w[1:]])
+        if k == "layern":
+            return self.set_layer(w[1], [int(v) for v in w[2:]])
         if k == "drawlayer":
-            return self.draw_layer(w[1])
+            return self.draw_layers([self.LEGACY_SPEC[w[1]]])
+        if k == "drawlayers":
+            return self.draw_layers([self.parse_spec(t) for t in w[1:]])
+        if k == "drawsp":
+            return self.draw_layers([self.parse_spec(t) for t in w[1:]], with_agents=True)
         raise ValueError(w)
 
 
@@ -611,6 +812,16 @@ class ParamsImpl:
             return "err Value " + t[:40]
         return "ok accept"
 
+    @staticmethod
+    def callable_static(src, keys):
+        ns = {}
+        exec(src, ns)  # noqa: S102 - the generated def statement of this scenario
+        try:
+            ns["__init__"](object(), **{k: 1 for k in keys})
+            return True
+        except TypeError:
+            return False
+
     def callable_with(self, keys):
         try:
             self.f(object(), **{k: 1 for k in keys})
@@ -630,6 +841,91 @@ class ParamsImpl:
             d[k] = {"type": "SliderInt", "value": 1, "min": 0, "max": 3, "step": 1, "label": "lbl"}.get(k, 1)
         return d
 
+    def make_param(self, spec):
+        """the model_params value of an `inputs` token (values are small ints; a Checkbox gets a bool, InputText a str)"""
+        m = L()
+        f = spec.split("/")
+        if f[0] == "slider":
+            return m["Slider"](f[3], int(f[2]), 0, 10, step=1 if f[1] == "i" else 0.5)
+        if f[0] == "spec":
+            d = {"type": f[1], "min": 0, "max": 10, "step": 1, "values": list(range(10))}
+            if f[2] != "-":
+                v = int(f[2])
+                d["value"] = bool(v) if f[1] == "Checkbox" else str(v) if f[1] == "InputText" else float(v) if f[1] == "SliderFloat" else v
+            if f[3] != "-":
+                d["label"] = f[3]
+            return d
+        if f[0] == "fdict":
+            return {"a": 1}
+        return int(f[1])
+
+    @staticmethod
+    def val_tok(v):
+        if v is None:
+            return "None"
+        if isinstance(v, dict):
+            return "dict"
+        if isinstance(v, bool):
+            return str(int(v))
+        return to_tok("", v)
+
+    def inputs(self, items):
+        """render ModelCreator on the parameter dict; record the inputs it creates at solara's boundary"""
+        from unittest import mock
+
+        m = L()
+        sv, solara = m["sv"], m["solara"]
+        params = {n: self.make_param(v) for n, v in items}
+        klass = type("M", (), {"__init__": self.f})
+        inst = object.__new__(klass)
+        rec = []
+
+        def spy(kind, orig):
+            def wrapper(*a, **k):
+                cb = k.get("on_value")
+                rec.append((kind, cb.__defaults__[0] if cb is not None and cb.__defaults__ else "?",
+                            a[0] if a else k.get("label"), k.get("value"), cb))
+                return orig(*a, **k)
+            return wrapper
+
+        kinds = {"SliderInt": "sliderint", "SliderFloat": "sliderfloat", "Select": "select", "Checkbox": "checkbox", "InputText": "inputtext"}
+        self.mp = solara.reactive({})
+        self.widgets = {}
+        with mock.patch.multiple(solara, **{a: spy(k, getattr(solara, a)) for a, k in kinds.items()}):
+            try:
+                solara.render(sv.ModelCreator(solara.reactive(inst), params, model_parameters=self.mp), handle_error=False)
+            except ValueError as e:
+                t = str(e)
+                self.mp = None
+                if t.endswith("is not a supported input type"):
+                    out = "err unsupported " + t.split()[0]
+                else:
+                    out = self.check_tok(lambda: (_ for _ in ()).throw(e))
+                self.trace.append(("inputs", self.src, items, out, None, None, None, any(p[1] == "vp" for p in self.sig)))
+                return out
+        self.widgets = {name: cb for _, name, _, _, cb in rec}
+        got = dict(self.mp.value)
+        self.trace.append(("inputs", self.src, items, "ok", got, [(k, n, lab, v) for k, n, lab, v, _ in rec], params,
+                           any(p[1] == "vp" for p in self.sig)))
+        return ("ok params=" + or_dash(",".join(f"{k}:{self.val_tok(v)}" for k, v in got.items()))
+                + " widgets=" + or_dash(",".join(f"{k}/{n}/{lab}/{self.val_tok(v)}" for k, n, lab, v, _ in rec)))
+
+    def change(self, name, value):
+        if getattr(self, "mp", None) is None or name not in self.widgets:
+            return "err noinput"
+        before = dict(self.mp.value)
+        self.widgets[name](int(value))
+        got = dict(self.mp.value)
+        self.trace.append(("change", self.src, name, int(value), before, got, self.callable_with_values(got)))
+        return "ok params=" + or_dash(",".join(f"{k}:{self.val_tok(v)}" for k, v in got.items()))
+
+    def callable_with_values(self, kw):
+        try:
+            self.f(object(), **kw)
+            return True
+        except TypeError:
+            return False
+
     def line(self, w):
         m = L()
         sv = m["sv"]
@@ -638,6 +934,10 @@ class ParamsImpl:
             self.sig = [tuple(p.split(":")) for p in w[1:]]
             self.f, self.src = build_init(self.sig)
             return "ok"
+        if k == "inputs":
+            return self.inputs([t.split(":") for t in w[1:]])
+        if k == "change":
+            return self.change(w[1], w[2])
         if k == "check":
             keys = w[1:]
             out = self.check_tok(lambda: sv._check_model_params(self.f, {k_: 1 for k_ in keys}))
@@ -683,7 +983,7 @@ def run_impl(sc):
 def gen_dict(R, policy):
     kv = []
     if R.random() < 0.6:
-        kv.append(("color", R.choice(FACE_COLORS)))
+        kv.append(("color", R.choice(FACE_TUPLES if R.random() < policy.get("tuples", 0) else FACE_COLORS)))
     if R.random() < 0.5:
         kv.append(("size", R.choice(SIZES)))
     if R.random() < 0.45:
@@ -693,6 +993,8 @@ def gen_dict(R, policy):
     for key, vals in (("alpha", ALPHAS), ("edgecolors", EDGE_COLORS), ("linewidths", LINEWIDTHS)):
         pol = policy[key]
         if pol == "all" or (pol == "some" and R.random() < 0.5):
+            if key == "edgecolors" and R.random() < policy.get("tuples", 0):
+                vals = EDGE_TUPLES
             kv.append((key, R.choice(vals)))
     if R.random() < 0.12:
         kv.append((R.choice(["id", "label", "x", "y"]), R.choice(["7", "q"])))
@@ -700,12 +1002,41 @@ def gen_dict(R, policy):
     return " ".join(f"{k}={v}" for k, v in kv)
 
 
+def gen_drawlayers(R, names):
+    """a request for draw_property_layers: mostly layers the space has, in any order, sometimes a name it has not"""
+    req = R.sample(names, R.randint(1, len(names))) if names else []
+    if R.random() < 0.2 or not req:
+        req.insert(R.randrange(len(req) + 1), "zz")
+    specs = []
+    for n in req:
+        k = R.random()
+        mode = f"color={R.choice(LAYER_COLORS)}" if k < 0.55 else f"cmap={R.choice(LAYER_CMAPS)}" if k < 0.97 else "none"
+        alpha = "-" if R.random() < 0.5 else str(R.choice([25, 50, 100]))
+        k = R.random()
+        if k < 0.4:
+            vmin = vmax = "-"
+        elif k < 0.5:
+            vmin, vmax = (str(R.randint(-2, 3)), "-") if R.random() < 0.5 else ("-", str(R.randint(6, 12)))
+        else:
+            lo = R.randint(-2, 6)
+            hi = lo + R.choice([0, 1, 2, 3, 4, 6, 8]) if R.random() < 0.95 else lo - R.randint(1, 3)
+            vmin, vmax = str(lo), str(hi)
+        cbar = R.choice(["-", "y", "n", "n"])
+        if (vmin != "-" and vmax != "-" and int(vmax) < int(vmin)) or (vmax == "-" and vmin != "-" and int(vmin) > 0) \
+                or (vmin == "-" and vmax != "-" and int(vmax) < 9):
+            # (possibly, with the layer's own minimum / maximum in 0..9) an inverted range: what a colour bar makes of it
+            # (nonsingular swaps and widens it) is matplotlib's
+            cbar = "n"
+        specs.append(f"{n}:{mode}:{alpha}:{vmin}:{vmax}:{cbar}")
+    return "drawlayers " + " ".join(specs)
+
+
 def gen_space(R, tier):
     fam = R.choice(FAMILIES + ("multi", "moore", "hex", "hexm", "netgrid", "net"))
     w, h = R.choice([1, 2, 2, 3, 3, 4, 5]), R.choice([1, 2, 3, 3, 4, 5])
     extra, cells = [], None
     if fam in NETS:
-        n = R.randint(2, 6)
+        n = R.choice([1, 2, 2, 3, 3, 4, 5, 6])  # one node: a layout without extent (V12)
         labels = list(range(n)) if R.random() < 0.4 else R.sample(range(0, 9), n)
         if R.random() < 0.5:
             R.shuffle(labels)
@@ -723,6 +1054,8 @@ def gen_space(R, tier):
     for key in ("alpha", "edgecolors", "linewidths"):
         policy[key] = R.choices(["none", "all", "some"], [0.64, 0.18, 0.18])[0]
     must_dict = any(p == "all" for p in policy.values())
+    # share of colours given as RGB(A) tuples: none, all, or mixed with names
+    policy["tuples"] = R.choices([0, 1, 0.5], [0.6, 0.1, 0.3])[0]
     ndict = R.randint(1 if must_dict else 0, 4)
     for r in range(ndict):
         lines.append(f"dict {r} " + gen_dict(R, policy))
@@ -744,15 +1077,21 @@ def gen_space(R, tier):
         if k < 0.28:
             return "collect"
         if k < 0.36:
-            return f"collectd {R.choice(FACE_COLORS)} {R.choice(SIZES)} {R.choice(MARKERS)} {R.choice(ZORDERS)}"
-        if k < 0.72:
+            return (f"collectd {R.choice(FACE_COLORS + FACE_TUPLES[:1])} {R.choice(SIZES)} {R.choice(MARKERS)} "
+                    f"{R.choice(ZORDERS)}")
+        if k < 0.69:
             return "draw"
+        if k < 0.72:
+            kws = R.sample([("alpha", ALPHAS), ("edgecolors", EDGE_COLORS), ("linewidths", LINEWIDTHS)], R.choice([1, 1, 2]))
+            return "drawk " + " ".join(f"{key}={R.choice(vals)}" for key, vals in kws)
         if k < 0.74:
             return "drawc"  # through the solara component (renders a PNG: slow, so rare)
         if k < 0.88:
             return "altair"
-        if k < 0.94:
+        if k < 0.93:
             return "altairc"
+        if k < 0.95:
+            return R.choice(["altairc0", "drawc0", "sdefault", "sdefault"])
         return "heap"
 
     def set_portray(vid):
@@ -781,14 +1120,32 @@ def gen_space(R, tier):
     for _ in range(R.randint(1, 3)):
         lines.append(observe())
     if fam in GRIDS and R.random() < 0.5:
-        mode = R.choice(["cmap", "color", "cmapauto", "colorauto"])
-        vals = [R.randrange(10) for _ in range(w * h)]
-        if mode.endswith("auto") and len(set(vals)) < 2:
-            mode = mode[:-4]
-        lines.append("layer " + " ".join(map(str, vals)))
-        lines.append(f"drawlayer {mode}")
-        if R.random() < 0.5:
-            lines.append(f"drawlayer {R.choice([mode, 'color', 'cmap'])}")  # drawing twice shows the same values
+        def layer_vals():
+            vals = [R.randrange(10) for _ in range(w * h)]
+            if R.random() < 0.12:
+                vals = [vals[0]] * (w * h)  # a constant layer: under an automatic range vmin == vmax (V13)
+            return " ".join(map(str, vals))
+
+        if R.random() < 0.3:
+            mode = R.choice(["cmap", "color", "cmapauto", "colorauto"])
+            lines.append("layer " + layer_vals())
+            lines.append(f"drawlayer {mode}")
+            if R.random() < 0.5:
+                lines.append(f"drawlayer {R.choice([mode, 'color', 'cmap'])}")  # drawing twice shows the same values
+        else:
+            names = R.sample(LAYER_NAMES, R.choice([1, 1, 2, 3]))
+            for n in names:
+                lines.append(f"layern {n} " + layer_vals())
+            for _ in range(R.choice([1, 2, 2, 3])):
+                line = gen_drawlayers(R, names)
+                if R.random() < 0.2:  # agents and layers on one Axes, through draw_space
+                    line = ("drawsp" if R.random() < 0.9 else "drawsp") + line[len("drawlayers"):]
+                lines.append(line)
+                if R.random() < 0.15:
+                    lines.append(f"layern {R.choice(names)} " + layer_vals())
+    elif fam not in GRIDS and R.random() < 0.05:
+        # only grids have property layers; an empty request through draw_space is skipped
+        lines.append(R.choice([gen_drawlayers(R, []), "drawsp", "drawsp v:color=red:-:-:-:n"]))
     for _ in range(R.randint(0, 6)):
         k = R.random()
         if k < 0.3 and where:
@@ -893,6 +1250,33 @@ def gen_keys(R, params):
     return keys
 
 
+INPUT_TYPES = ["SliderInt", "SliderFloat", "Select", "Checkbox", "InputText"]
+
+
+def gen_inputs(R, keys):
+    """ModelCreator on a full parameter dict (fixed values, Slider objects, option dicts), then changes of inputs"""
+    toks, adjustable = [], []
+    for n in keys:
+        k = R.random()
+        if k < 0.3:
+            toks.append(f"{n}:val/{R.randrange(10)}")
+        elif k < 0.37:
+            toks.append(f"{n}:fdict")
+        elif k < 0.65:
+            toks.append(f"{n}:slider/{R.choice('if')}/{R.randrange(10)}/{R.choice(['N', 'lbl', n])}")
+            adjustable.append(n)
+        else:
+            t = R.choice(INPUT_TYPES) if R.random() < 0.93 else R.choice(["Foo", "slider", "Slider"])
+            v = "-" if R.random() < 0.1 else str(R.randrange(2) if t == "Checkbox" else R.randrange(10))
+            toks.append(f"{n}:spec/{t}/{v}/{R.choice(['-', '-', 'K', 'lbl'])}")
+            adjustable.append(n)
+    out = [" ".join(["inputs", *toks])]
+    for _ in range(R.choice([0, 1, 1, 2, 3])):
+        pool = adjustable if adjustable and R.random() < 0.9 else (keys or ["zz"])
+        out.append(f"change {R.choice(pool)} {R.randrange(10)}")
+    return out
+
+
 def gen_params(R, tier):
     lines = ["scenario params"]
     for _ in range(R.randint(1, 3)):
@@ -901,7 +1285,14 @@ def gen_params(R, tier):
         for _ in range(R.randint(2, 6)):
             keys = gen_keys(R, params)
             k = R.random()
-            if k < 0.8:
+            if k < 0.12:
+                if R.random() < 0.7:
+                    # the names a call by keyword needs (and some it may take): mostly accepted, so that inputs get changed
+                    rest = params[1:] if params and params[0][1] in ("po", "pk") else params
+                    keys = [n for n, kd, d in rest if kd in ("pk", "ko") and (d == "n" or R.random() < 0.4)]
+                    R.shuffle(keys)
+                lines.extend(gen_inputs(R, keys))
+            elif k < 0.8:
                 lines.append(" ".join(["check", *keys]))
             elif k < 0.9:
                 vals = [R.choice(["slider", "val", "dict+type+value+min+max", "dict+label", "dict"]) for _ in keys]
@@ -968,7 +1359,7 @@ def expected_marker(fam, loc, d, size_default):
     x, y = loc
     if fam in HEXES:
         x, y = 2 * x + ((y - 1) % 2), 3 * y
-    return (f"{x},{y}", to_tok("size", d["size"]) if "size" in d else size_default, str(d.get("color", "tab:blue")),
+    return (f"{x},{y}", to_tok("size", d["size"]) if "size" in d else size_default, color_tok(d.get("color", "tab:blue")),
             str(d.get("marker", "o")), int(d.get("zorder", 1)))
 
 
@@ -994,7 +1385,7 @@ def oracle(sc, obs):
                 bad.append(f"collect-raised: collect_agent_data raised {opt} with {len(snap)} agents in the space")
                 continue
             c, s, mk, z = defaults or ("tab:blue", "25", "o", "1")
-            want = sorted((f"{loc[0]},{loc[1]}", to_tok("size", d["size"]) if "size" in d else s, str(d.get("color", c)),
+            want = sorted((f"{loc[0]},{loc[1]}", to_tok("size", d["size"]) if "size" in d else s, color_tok(d.get("color", color_py(c))),
                            str(d.get("marker", mk)), str(d.get("zorder", z))) for _, loc, d in snap)
             if sorted(entries) != want:
                 bad.append(f"collect-one-entry-per-agent: entries {sorted(entries)} but the agents in the space demand {want}")
@@ -1008,13 +1399,24 @@ def oracle(sc, obs):
                 if len(opt[key]) != len(entries):
                     bad.append(f"collect-optional-length: {key} {opt[key]} has not one slot for each of the {len(entries)} agents")
                     continue
-                wk = sorted((f"{loc[0]},{loc[1]}", to_tok("size", d["size"]) if "size" in d else s, str(d.get("color", c)),
+                wk = sorted((f"{loc[0]},{loc[1]}", to_tok("size", d["size"]) if "size" in d else s, color_tok(d.get("color", color_py(c))),
                              str(d.get("marker", mk)), str(d.get("zorder", z)),
                              to_tok(key, d[key]) if key in d else "None") for _, loc, d in snap)
                 if sorted(e + (v,) for e, v in zip(entries, opt[key])) != wk:
                     bad.append(f"collect-optional: {key} {opt[key]} along entries {entries} but the agents demand {wk}")
         elif kind == "draw":
-            _, snap, groups, err, _hb, _ha = ev
+            _, snap, groups, err, kw, _hb, _ha = ev
+            # plotting keyword arguments reach the scatter calls of grids and networks only; there, a keyword that some
+            # agent's portrayal specifies too is refused (documented), otherwise it applies to every marker
+            kw = kw if kw and fam not in ("cs", "xcs", "vor") else {}
+            clash = [k for k in ("edgecolors", "linewidths", "alpha") if k in kw and any(k in d for _, _, d in snap)]
+            if err is not None and clash and err.startswith(f"err Value conflict {clash[0]}"):
+                continue
+            if err is None and clash:
+                bad.append(f"draw-kwargs-clash: {clash[0]} given by a portrayal and as a plotting keyword, and drawn all the same")
+                continue
+            if kw:
+                snap = [(v, loc, {**d, **{k: to_py(k, t) for k, t in kw.items()}}) for v, loc, d in snap]
             if err is not None:
                 key = partial_optional(snap)
                 if key and err.startswith("err Index"):
@@ -1031,35 +1433,118 @@ def oracle(sc, obs):
             if len(set(keys)) != len(keys):
                 bad.append(f"draw-group-twice: a (marker, zorder) pair is scattered twice: {keys}")
         elif kind == "altair":
-            _, snap, rows, err, _hb, _ha = ev
-            if err is not None:
+            if ev[3] is not None:
+                _, snap, rows, err, _hb, _ha = ev
                 if fam in ALTAIR_OK:
                     bad.append(f"altair-raised: _draw_grid raised {err} with {len(snap)} agents in the space")
                 continue
+            _, snap, rows, err, facts, _hb, _ha = ev
             want = sorted(fmt_dict({**d, "x": loc[0], "y": loc[1]}) for _, loc, d in snap)
             got = sorted(fmt_dict(r) for r in rows)
             if got != want:
                 bad.append(f"altair-one-row-per-agent: rows {got} but the agents in the space demand {want}")
+            # a channel the chart encodes must be a field of the rows; if every agent is portrayed with a colour / a size
+            # the chart must use it; marks are filled points; without sizes from the rows the marks get a default size
+            for ch in ("color", "size"):
+                if ch in facts["enc"] and not any(ch in r for r in rows):
+                    bad.append(f"altair-encoding: the chart encodes {ch}, no row has it")
+                if rows and all(ch in d for _, _, d in snap) and ch not in facts["enc"]:
+                    bad.append(f"altair-encoding: every agent is portrayed with a {ch}, the chart does not encode it")
+            if ("size" in facts["enc"]) == (facts["mark"] != "-"):
+                bad.append(f"altair-mark-size: size encoded: {'size' in facts['enc']}, default mark size {facts['mark']}")
+            if facts["type"] != "point" or facts["filled"] is not True:
+                bad.append(f"altair-mark: marks are {facts['type']} filled={facts['filled']}")
+            if any(t in ("x", "y", "color", "size") or not any(t in r for r in rows) for t in facts["tip"]):
+                bad.append(f"altair-tooltip: tooltip fields {facts['tip']} for rows {rows}")
+        elif kind == "sdefault":
+            _, n, tok = ev
+            # the default size is a positive finite number whenever there is an agent to draw (V12)
+            if tok.startswith("err") or (n > 0 and tok in ("none", "several", "?", "inf", "nan")) or (n == 0 and tok != "none"):
+                bad.append(f"default-size: with {n} agents in the space the default marker size is {tok}")
         elif kind == "layer-mutated":
             bad.append(f"layer-mutated: drawing the property layer changed the model's layer values from {ev[1]} to {ev[2]}")
-        elif kind == "layer":
-            _, data, mode, res, err = ev
-            if err is not None:
-                bad.append(f"layer-raised: draw_property_layers raised {err}")
+        elif kind == "layers":
+            from fractions import Fraction
+
+            _, fam_, datas, specs, res, err, with_agents = ev
+            known = [sp for sp in specs if sp[0] in datas]
+            if with_agents and not specs:
+                # draw_space skips an empty request: nothing to refuse, nothing to draw
+                if err is not None or res:
+                    bad.append(f"layers-empty-request: draw_space with an empty layer request gave {err or res}")
                 continue
-            shape, cells = res
-            wd, hd = len(data), len(data[0])
-            if shape == "img":
-                if fam in HEXES:
-                    bad.append("layer-hex-as-image: a hex grid's layer is drawn as a square image")
-                elif cells != [[data[c][r] for c in range(wd)] for r in range(hd)]:
-                    bad.append(f"layer-orientation: image {cells} for data[x][y] {data}")
-            elif shape == "hex":
-                want = sorted(((c, r), data[c][r]) for c in range(wd) for r in range(hd))
-                if sorted(cells, key=str) != sorted(want, key=str):
-                    bad.append(f"layer-orientation: hexagons {cells} for data[x][y] {data}")
-            else:
-                bad.append("layer-not-drawn: nothing was drawn for the layer")
+
+            def rng(sp):
+                flat = [v for col in datas[sp[0]] for v in col]
+                return (min(flat) if sp[4] is None else sp[4], max(flat) if sp[5] is None else sp[5])
+
+            if err is not None:
+                # the request itself is at fault: the space class has no property layers, a layer's portrayal names
+                # neither a colour nor a colormap, a hex layer is given an inverted range (Normalize refuses it)
+                legit = (fam_ not in GRIDS or any(sp[1] == "none" for sp in known)
+                         or (fam_ in HEXES and any(rng(sp)[0] > rng(sp)[1] for sp in known)))
+                if not legit:
+                    bad.append(f"layers-raised: draw_property_layers raised {err} for {specs}")
+                continue
+            if fam_ not in GRIDS or any(sp[1] == "none" for sp in known):
+                bad.append(f"layers-not-refused: {specs} drawn on {fam_} without an error")
+                continue
+            if [r[0] for r in res] != [sp[0] for sp in known]:
+                bad.append(f"layers-drawn: pictures for {[r[0] for r in res]} but the request names the layers {[sp[0] for sp in known]}")
+                continue
+            for r, sp in zip(res, known):
+                name, shape, arg, atok, lotok, hitok, btok, cells = r
+                data = datas[name]
+                wd, hd = len(data), len(data[0])
+                lo, hi = rng(sp)
+                alpha = Fraction(100 if sp[3] is None else sp[3], 100)
+                if (fam_ in HEXES) != shape.startswith("hex"):
+                    bad.append(f"layer-shape: layer {name} of a {fam_} grid drawn as {shape}")
+                    continue
+                if (sp[1] == "cmap") != shape.endswith("map") or arg != sp[2]:
+                    bad.append(f"layer-mode: layer {name} requested as {sp[1]}={sp[2]} drawn as {shape} {arg}")
+                want_bar = "-" if sp[6] is False else f"{lo}..{hi}"
+                if btok != want_bar and not (lo > hi and btok != "-"):
+                    bad.append(f"layer-colorbar: layer {name} has colour bar {btok}, its values are drawn over the range {want_bar}")
+                # which cell shows what
+                if shape.startswith("img"):
+                    if len(cells) != hd or any(len(row) != wd for row in cells):
+                        bad.append(f"layer-orientation: image of {len(cells)} rows for a {wd} x {hd} grid")
+                        continue
+                    shown = {(x, y): cells[y][x] for x in range(wd) for y in range(hd)}
+                else:
+                    if sorted(c for c, _ in cells) != sorted((x, y) for x in range(wd) for y in range(hd)):
+                        bad.append(f"layer-orientation: hexagons {[c for c, _ in cells]} for a {wd} x {hd} grid")
+                        continue
+                    shown = dict(cells)
+                if shape == "imgmap":
+                    # the values themselves are handed to imshow together with the range and the opacity
+                    if any(shown[x, y] != str(data[x][y]) for x in range(wd) for y in range(hd)):
+                        bad.append(f"layer-orientation: image {cells} for data[x][y] {data}")
+                    if (lotok, hitok, atok) != (str(lo), str(hi), str(int(alpha * 100))):
+                        bad.append(f"layer-range: layer {name} drawn with vmin={lotok} vmax={hitok} alpha={atok}, requested {lo} {hi} {alpha}")
+                    continue
+                if shape == "hexmap" and atok != str(int(alpha * 100)):
+                    bad.append(f"layer-alpha: layer {name} drawn with opacity {atok}, requested {alpha}")
+                if lo > hi:
+                    continue
+                full = alpha if shape in ("img", "hex") else Fraction(1)
+                for (x, y), tok in shown.items():
+                    v = data[x][y]
+                    got = Fraction(tok) if tok != "?" else None
+                    if got is None:
+                        bad.append(f"layer-value: cell ({x},{y}) of layer {name} shows no value (data {data})")
+                        break
+                    if lo == hi or v <= lo:
+                        ok = got == 0
+                    elif v < hi:
+                        ok = got == Fraction(v - lo, hi - lo) * full  # linear in the value between vmin and vmax
+                    else:
+                        ok = (full if v == hi else min(full, 1)) <= got <= 1 if v > hi else got == full
+                    if not ok:
+                        bad.append(f"layer-value: cell ({x},{y}) of layer {name} holds {v} and is drawn at {tok} "
+                                   f"(range {lo}..{hi}, opacity {alpha}, data {data})")
+                        break
         elif kind in ("check", "creator"):
             _, src, keys, out, callable_ok, has_vp = ev
             accepted = out == "ok accept"
@@ -1067,6 +1552,58 @@ def oracle(sc, obs):
             if accepted != want:
                 bad.append(f"{kind}-vs-call: {src.splitlines()[0]} with keys {keys}: check says {out}, "
                            f"calling it by keyword {'works' if callable_ok else 'fails'}{' (*args: refused by policy)' if has_vp else ''}")
+        elif kind == "inputs":
+            _, src, items, out, got, widgets, params, has_vp = ev
+            names = [n for n, _ in items]
+            adjustable = [(n, v) for n, v in items if v.startswith(("slider", "spec"))]
+            unsupported = [v.split("/")[1] for _, v in adjustable if v.startswith("spec") and
+                           v.split("/")[1] not in ("SliderInt", "SliderFloat", "Select", "Checkbox", "InputText")]
+            callable_ok = ParamsImpl.callable_static(src, names)
+            if out.startswith("err unsupported"):
+                if not unsupported:
+                    bad.append(f"inputs-unsupported: {out} but every input type of {items} is supported")
+                continue
+            if unsupported:
+                bad.append(f"inputs-unsupported: {items} holds the unsupported input type {unsupported[0]}, ModelCreator says {out}")
+                continue
+            if (out == "ok") != (callable_ok and not has_vp):
+                bad.append(f"creator-vs-call: {src.splitlines()[0]} with keys {names}: ModelCreator says {out}, "
+                           f"calling it by keyword {'works' if callable_ok else 'fails'}{' (*args: refused by policy)' if has_vp else ''}")
+                continue
+            if out != "ok":
+                continue
+            # the parameter set for (re-)creating the model: every name of model_params, fixed values as they are, inputs
+            # at their value
+            if sorted(got) != sorted(names):
+                bad.append(f"inputs-lossless: model_parameters has the keys {sorted(got)}, model_params {sorted(names)}")
+            for n, v in items:
+                f = v.split("/")
+                if n not in got:
+                    continue
+                if f[0] in ("val", "fdict"):
+                    if got[n] is not params[n]:
+                        bad.append(f"inputs-fixed-value: fixed parameter {n} reaches the model as {got[n]!r}, not as given")
+                else:
+                    want = "None" if f[2] == "-" else f[2]
+                    if ParamsImpl.val_tok(got[n]) != want:
+                        bad.append(f"inputs-initial-value: input {n} ({v}) starts at {got[n]!r}")
+            # one input per user-adjustable parameter, in order, of the kind its type names, labelled and valued as specified
+            want_w = []
+            for n, v in adjustable:
+                f = v.split("/")
+                if f[0] == "slider":
+                    want_w.append(("sliderfloat" if f[1] == "f" else "sliderint", n, f[3], f[2]))
+                else:
+                    want_w.append((f[1].lower(), n, n if f[3] == "-" else f[3], "None" if f[2] == "-" else f[2]))
+            if [(k, n, lab, ParamsImpl.val_tok(v)) for k, n, lab, v in widgets] != want_w:
+                bad.append(f"inputs-widgets: inputs {widgets} created for {adjustable}")
+        elif kind == "change":
+            _, src, name, value, before, got, callable_ok = ev
+            if {k: v for k, v in got.items() if k != name} != {k: v for k, v in before.items() if k != name} or got.get(name) != value \
+                    or list(got) != list(before):
+                bad.append(f"inputs-change: input {name} reported {value}: parameters went from {before} to {got}")
+            if not callable_ok:
+                bad.append(f"inputs-change: after input {name} reported {value} the constructor {src.splitlines()[0]} cannot be called with {sorted(got)}")
         elif kind == "split":
             _, items, user, fixed, params, udict, fdict = ev
             names = [n for n, _ in items]
